@@ -14,7 +14,6 @@ import (
 	"encoding/json"
 	"errors"
 	"fmt"
-	"io"
 	"math"
 	"regexp"
 	"sort"
@@ -25,7 +24,6 @@ import (
 	"github.com/compose-spec/compose-go/v2/loader"
 	"github.com/compose-spec/compose-go/v2/template"
 	"github.com/compose-spec/compose-go/v2/tree"
-	"github.com/sirupsen/logrus"
 	"gopkg.in/yaml.v3"
 
 	"verifharness/core"
@@ -67,7 +65,26 @@ func classifyInterpErr(err error) map[string]any {
 func fmt64(f float64) string { return strconv.FormatFloat(f, 'g', -1, 64) }
 func fmt32(f float32) string { return strconv.FormatFloat(float64(f), 'g', -1, 32) }
 
-// floatTables renders strconv.ParseFloat (the opaque part of the model) on every substituted string leaf.
+// refFloat is the harness's own reading of "a number as YAML reads it" (standard library only): the opaque float
+// parser handed to the model.  Integers in any YAML spelling first, then strconv.ParseFloat.
+func refFloat(s string, bits int) (float64, bool) {
+	plain := strings.ReplaceAll(s, "_", "")
+	if i, err := strconv.ParseInt(plain, 0, 64); err == nil {
+		return float64(i), true
+	}
+	if u, err := strconv.ParseUint(plain, 0, 64); err == nil {
+		return float64(u), true
+	}
+	if f, err := strconv.ParseFloat(plain, bits); err == nil {
+		return f, true
+	}
+	if f, err := strconv.ParseFloat(s, bits); err == nil {
+		return f, true
+	}
+	return 0, false
+}
+
+// floatTables renders the float parser (the opaque part of the model) on every substituted string leaf.
 func floatTables(v any, lookup template.Mapping, f64, f32 map[string]string) {
 	switch x := v.(type) {
 	case string:
@@ -75,10 +92,10 @@ func floatTables(v any, lookup template.Mapping, f64, f32 map[string]string) {
 		if err != nil {
 			return
 		}
-		if f, err := strconv.ParseFloat(s, 64); err == nil {
+		if f, ok := refFloat(s, 64); ok {
 			f64[s] = fmt64(f)
 		}
-		if f, err := strconv.ParseFloat(s, 32); err == nil {
+		if f, ok := refFloat(s, 32); ok {
 			f32[s] = fmt32(float32(f))
 		}
 	case map[string]any:
@@ -376,20 +393,33 @@ func realCasters(raw json.RawMessage) any {
 	}
 	out["table"] = tbl
 	out["decode"] = dec
-	// what yaml.v3 makes of the plain literal 0[0-7]+ (tie of Spec.yamlLegacyOctal)
-	out["yamloct"] = nil
-	if legacyOctalRe.MatchString(a.S) {
+	// what yaml.v3 makes of the text as a plain literal (tie of Spec.yamlInt): an int, or anything else = null
+	out["yamlint"] = nil
+	if plainScalarRe.MatchString(a.S) {
 		var v any
 		if err := yaml.Unmarshal([]byte(a.S), &v); err == nil {
-			if i, ok := v.(int); ok {
-				out["yamloct"] = strconv.Itoa(i)
+			switch i := v.(type) {
+			case int:
+				out["yamlint"] = strconv.Itoa(i)
+			case int64:
+				out["yamlint"] = strconv.FormatInt(i, 10)
 			}
 		}
 	}
+	// the reference float reading vs the real float casters (the model takes it as a parameter)
+	ref := map[string]any{"f64": nil, "f32": nil}
+	if f, ok := refFloat(a.S, 64); ok {
+		ref["f64"] = fmt64(f)
+	}
+	if f, ok := refFloat(a.S, 32); ok {
+		ref["f32"] = fmt32(float32(f))
+	}
+	out["ref"] = ref
 	return out
 }
 
-var legacyOctalRe = regexp.MustCompile(`^0[0-7]+$`)
+// texts that are one plain scalar for YAML whatever they contain (no indicator, no space, no document marker)
+var plainScalarRe = regexp.MustCompile(`^[-+]?[0-9A-Za-z_][0-9A-Za-z_+.\-]*$`)
 
 func judgeCasters(args, real, drv json.RawMessage) *core.Verdict {
 	if v := core.CrashVerdict(real); v != nil {
@@ -398,7 +428,8 @@ func judgeCasters(args, real, drv json.RawMessage) *core.Verdict {
 	var r struct {
 		Table, Decode map[string]any
 		Bad           string
-		Yamloct       any
+		Yamlint       any
+		Ref           map[string]any
 	}
 	if json.Unmarshal(real, &r) != nil || r.Bad != "" {
 		return core.Disagree("casters: " + r.Bad)
@@ -411,6 +442,10 @@ func judgeCasters(args, real, drv json.RawMessage) *core.Verdict {
 			return core.Fail("casters-differ:"+k, fmt.Sprintf("cast table gives %v but the decode-time cast gives %v for %s %q", r.Table[k], r.Decode[k], k, a.S))
 		}
 	}
+	// direct: every text YAML resolves to an integer is cast to that integer
+	if r.Yamlint != nil && (fmt.Sprint(r.Table["int64"]) != fmt.Sprint(r.Yamlint) || fmt.Sprint(r.Table["int"]) != fmt.Sprint(r.Yamlint)) {
+		return core.Fail("casters:yaml-int-literal-differs", fmt.Sprintf("yaml.v3 reads the literal %q as %v but toInt gives %v and toInt64 %v", a.S, r.Yamlint, r.Table["int"], r.Table["int64"]))
+	}
 	var d map[string]any
 	if drv == nil || json.Unmarshal(drv, &d) != nil {
 		return core.Disagree("no driver answer")
@@ -418,8 +453,17 @@ func judgeCasters(args, real, drv json.RawMessage) *core.Verdict {
 	if fmt.Sprint(d["int"]) != fmt.Sprint(r.Table["int"]) || fmt.Sprint(d["int"]) != fmt.Sprint(r.Table["int64"]) {
 		return core.Disagree(fmt.Sprintf("Interp.parseInt(%q)=%v but toInt=%v toInt64=%v", a.S, d["int"], r.Table["int"], r.Table["int64"]))
 	}
-	if fmt.Sprint(d["yamloct"]) != fmt.Sprint(r.Yamloct) {
-		return core.Disagree(fmt.Sprintf("Spec.yamlLegacyOctal(%q)=%v but yaml.v3 gives %v", a.S, d["yamloct"], r.Yamloct))
+	want := d["yamlint"]
+	if !plainScalarRe.MatchString(a.S) {
+		want = nil // outside the texts the harness can write as one plain scalar
+	}
+	if fmt.Sprint(want) != fmt.Sprint(r.Yamlint) {
+		return core.Disagree(fmt.Sprintf("Spec.yamlInt(%q)=%v but yaml.v3 gives %v", a.S, d["yamlint"], r.Yamlint))
+	}
+	for _, k := range []string{"f64", "f32"} {
+		if fmt.Sprint(r.Ref[k]) != fmt.Sprint(r.Table[k]) {
+			return core.Disagree(fmt.Sprintf("reference float reading of %q (%s) = %v but the caster gives %v", a.S, k, r.Ref[k], r.Table[k]))
+		}
 	}
 	if fmt.Sprint(d["bool"]) != fmt.Sprint(r.Table["bool"]) {
 		return core.Disagree(fmt.Sprintf("Interp.parseBool(%q)=%v but toBoolean=%v", a.S, d["bool"], r.Table["bool"]))
@@ -552,8 +596,10 @@ func runC08(ctx *core.Ctx) {
 		ctx.Count("casters-random")
 		ctx.Add("c08casters", casterArgs{S: b.String()})
 	}
-	// YAML 1.1 octal spellings (tie of Spec.yamlLegacyOctal), incl. the int64 boundary
-	for _, o := range []string{"00", "07", "010", "0440", "0777", "0644", "08", "0", "00000", "0777777777777777777777", "01000000000000000000000", "0777777777777777777778"} {
+	// YAML integer spellings (tie of Spec.yamlInt), incl. the int64 boundary
+	for _, o := range []string{"0X1f", "0B11", "0O17", "0b+1", "0o-7", "0b-1", "-0b11", "-0o7", "-0b+1", "0_8", "09", "018", "+08", "0x", "0b", "0o", "0x_", "1__0", "_1", "+_1", "-_",
+		"0x7fffffffffffffff", "0x8000000000000000", "-0x8000000000000000", "-0x8000000000000001", "0xffffffffffffffff", "0x10000000000000000", "0b2", "0o8", "0xg", "00x1", "0x1p-2", "1e3", "1.0", "+", "-", "---", "-0", "+0", "0b", "0B_1", "0o_7", "-0O17", "+0x10", "0x1_0", "1_000", "2001-12-14", "12:30", "0.", ".5", "1_0.5", "010.5",
+		"00", "07", "010", "0440", "0777", "0644", "08", "0", "00000", "0777777777777777777777", "01000000000000000000000", "0777777777777777777778"} {
 		ctx.Count("casters-octal")
 		ctx.Add("c08casters", casterArgs{S: o})
 	}
@@ -565,6 +611,19 @@ func runC08(ctx *core.Ctx) {
 		b := []byte{'0'}
 		for j := 0; j < n; j++ {
 			b = append(b, byte('0'+ctx.Rng.Intn(8)))
+		}
+		if ctx.Rng.Intn(3) == 0 {
+			// prefixed / signed / underscored variants over a hex alphabet
+			alpha := "0123456789abcdefABCDEFxXoObB_+-"
+			pre := []string{"0x", "0X", "0o", "0b", "-0x", "-0b", "-0o", "+0", "0", "", "-", "0b-", "0o+"}[ctx.Rng.Intn(13)]
+			b = []byte(pre)
+			for j := 0; j < n; j++ {
+				k := ctx.Rng.Intn(len(alpha))
+				if ctx.Rng.Intn(3) != 0 {
+					k = ctx.Rng.Intn(10)
+				}
+				b = append(b, alpha[k])
+			}
 		}
 		ctx.Count("casters-octal")
 		ctx.Add("c08casters", casterArgs{S: string(b)})
@@ -725,7 +784,6 @@ func mergeInto(dst, src map[string]any) {
 }
 
 func init() {
-	logrus.SetOutput(io.Discard)
 	core.Register("interpolate", &core.CheckDef{
 		Real:     realInterpolate,
 		DriverOp: "interpolate",
